@@ -8,6 +8,7 @@ import sys, os, time, json, pickle, importlib, traceback, subprocess, re, random
 HERE = os.path.dirname(os.path.abspath(__file__))
 sys.path.insert(0, HERE)
 VERIF = os.path.dirname(HERE)
+EVID = os.environ.get('VERIF_EVIDENCE', os.path.join(VERIF, 'evidence'))
 sys.path.insert(0, VERIF)
 import lower
 
@@ -236,7 +237,7 @@ def main():
         return do_replay(P, prop, a.replay)
     tier = a.tier
     import irparse, glob
-    for f in glob.glob(os.path.join(VERIF, 'evidence', 'replays', prop + '_*')):
+    for f in glob.glob(os.path.join(EVID, 'replays', prop + '_*')):
         os.remove(f)
     units = [u for u in P.UNITS if (not a.unit or u['name'] == a.unit) and tier in u.get('tiers', ('quick', 'thorough'))]
     known = load_known()
@@ -317,7 +318,7 @@ def main():
         seen.add(key)
         u = [x for x in units if x['name'] == v['unit']][0]
         k = match_known(known, prop, v['unit'], v['entry'], v)
-        rep = os.path.join(VERIF, 'evidence', 'replays'); os.makedirs(rep, exist_ok=True)
+        rep = os.path.join(EVID, 'replays'); os.makedirs(rep, exist_ok=True)
         rfile = os.path.join(rep, '%s_%s_%s_%d.replay' % (prop, v['unit'], v['entry'], i))
         vals = v.get('inputs') or []
         with open(rfile, 'w') as f:
@@ -417,8 +418,8 @@ def main():
                   engine='E2 symbolic executor over clang-14 -O1 LLVM IR regenerated from /repo (python + z3 %s)' % _z3v(),
                   exhaustive=False))
     if hasattr(P, 'finish_evidence'): P.finish_evidence(ev, results)
-    os.makedirs(os.path.join(VERIF, 'evidence'), exist_ok=True)
-    with open(os.path.join(VERIF, 'evidence', prop + '.json'), 'w') as f:
+    os.makedirs(EVID, exist_ok=True)
+    with open(os.path.join(EVID, prop + '.json'), 'w') as f:
         json.dump(ev, f, indent=1, default=str)
     print('%s tier=%s: %d paths, %d solver queries (%.1fs solver), %d assertions decided, %d violation(s), %d known finding(s), %d inconclusive, wall %.1fs -> exit %d' % (
         prop, tier, totals.get('paths', 0), totals.get('queries', 0), totals.get('solver_s', 0), totals.get('asserts_checked', 0), len(confirmed), len(known_hits), len(inconclusive), wall, rc))
